@@ -68,8 +68,6 @@ list_cmp = {n: F("list_" + n, Val, Val, BoolS) for n in ("lt", "le", "gt", "ge")
 plain = OP("plain", 1)                   # plain view of an ARGUMENT value (identity on JSON data; tuples -> lists)
 put_in = OP("put_in", 3)                 # [L-COMP] replace the sub-value at the position of an attached node
 sub_of = OP("sub_of", 2)                 # [L-COMP] select the sub-value at the position of an attached node
-has_lv = F("has_lv", Val, BoolS)         # a list value built by the lifted _from_base map (elements may be nodes)
-listview = OP("listview", 1)             # its element-wise plain view
 
 KE, IE, VE, TE = "KeyError", "IndexError", "ValueError", "TypeError"
 
@@ -136,9 +134,23 @@ class Intrinsics:
         eng.intr = self
 
     # ------------------------------------------------------------------ ghost helpers
-    def iv(self, st, t):
-        """[N-VIEW] plain view of an item: a scalar is itself, a node reference is that node's view."""
-        return z3.If(smt.is_VRef(t), st.sel("View", addr_of(t)), z3.If(has_lv(t), listview(t), t))
+    def iv(self, st, v):
+        """[N-VIEW] plain image of a value: a scalar / plain value is itself, a node reference is that node's
+        view, and a python-side *lifted* value (a container literal built from node items, meta['lv']) is the
+        plain image recorded when it was built."""
+        if isinstance(v, ObjV):
+            return st.sel("View", z3.IntVal(v.addr))
+        if isinstance(v, Z):
+            if "lv" in v.meta:
+                return v.meta["lv"]
+            if v.meta.get("plain"):
+                return v.term
+            t = v.term
+        elif z3.is_expr(v):
+            t = v
+        else:
+            return to_val(v)
+        return z3.If(smt.is_VRef(t), st.sel("View", addr_of(t)), t)
 
     def root_of(self, st, node):
         r = st.rec(node).fields.get("_root")
@@ -190,7 +202,7 @@ class Intrinsics:
         a = [to_val(x) for x in args]
         owner = ref.meta.get("owner")
         view = self.owner_view(st, owner) if owner is not None else None
-        va = [self.iv(st, t) for t in a] if owner is not None else None
+        va = [self.iv(st, x) for x in args] if owner is not None else None
         outs = []
         cur = st
         for (exc, cond) in spec.get("raises", []):
@@ -223,6 +235,9 @@ class Intrinsics:
                 rv = spec["result"](view, va)
                 if r.sort() == Val:
                     cur.assume(self.iv(cur, r) == rv)
+                    # Inv.node (tree shape): an item of a node's container is a scalar or a DESCENDANT node,
+                    # never the node itself, its root, or any other python-side known object
+                    cur.assume(z3.Implies(smt.is_VRef(r), addr_of(r) > 1000))
                 else:
                     cur.assume(r == rv)
             if r.sort() == BoolS:
@@ -321,41 +336,72 @@ class Intrinsics:
         return Z(t, None, {"fresh_container": True})
 
     def dict_display(self, eng, e, st):
-        cur = [(st, dict_empty)]
+        """{k: v, **m, ...}.  Two terms are built in lock-step: the raw value (its items may be node references
+        when a node's own container is merged in) and its plain image [N-VIEW]."""
+        cur = [(st, (dict_empty, dict_empty, False))]
+        const_items = {}
         for k, v in zip(e.keys, e.values):
             nxt = []
-            for (x, t) in cur:
-                if isinstance(t, Raise):
-                    nxt.append((x, t))
+            for (x, acc) in cur:
+                if isinstance(acc, Raise):
+                    nxt.append((x, acc))
                     continue
+                t, tv, lifted = acc
+
+                def merge(a, b):
+                    return b if a.eq(dict_empty) else dict_merge(a, b)
                 if k is None:        # **mapping
                     for (y, mv) in eng.ev(v, x):
                         if isinstance(mv, Raise):
                             nxt.append((y, mv))
                         elif isinstance(mv, KwV):
-                            t2 = t
+                            t2, tv2 = t, tv
                             for kk, vv in mv.d.items():
                                 t2 = dict_set(t2, VStr(z3.StringVal(kk)), to_val(vv))
-                            if not mv.d and getattr(mv, "symbolic", None) is not None:
-                                t2 = dict_merge(t2, mv.symbolic)
-                            nxt.append((y, t2))
+                                tv2 = dict_set(tv2, VStr(z3.StringVal(kk)), self.iv(y, vv))
+                            if getattr(mv, "symbolic", None) is not None:
+                                t2 = merge(t2, mv.symbolic)
+                                tv2 = merge(tv2, mv.symbolic)
+                            nxt.append((y, (t2, tv2, lifted)))
                         elif self.kind_of(mv) == "dict":
                             c = self.cell_content(y, mv)
-                            y.event("cell-read", mv.meta.get("owner").addr if mv.meta.get("owner") else None, "merge-src")
+                            owner = mv.meta.get("owner")
+                            y.event("cell-read", owner.addr if owner else None, "merge-src")
                             for h in eng.hooks:
-                                h("cell-read", y, ref=mv, op="merge-src", owner=mv.meta.get("owner"))
-                            nxt.append((y, dict_merge(t, c)))
+                                h("cell-read", y, ref=mv, op="merge-src", owner=owner)
+                            vw = self.owner_view(y, owner) if owner is not None else c
+                            nxt.append((y, (merge(t, c), merge(tv, vw), lifted or owner is not None)))
                         else:
-                            nxt.append((y, dict_merge(t, to_val(mv))))
+                            mt = to_val(mv)
+                            nxt.append((y, (merge(t, mt), merge(tv, self.iv(y, mv)), lifted)))
                 else:
                     for (y, kv) in eng.ev(k, x):
                         if isinstance(kv, Raise):
                             nxt.append((y, kv))
                             continue
                         for (z, vv) in eng.ev(v, y):
-                            nxt.append((z, vv if isinstance(vv, Raise) else dict_set(t, to_val(kv), to_val(vv))))
+                            if isinstance(vv, Raise):
+                                nxt.append((z, vv))
+                            else:
+                                if isinstance(kv, Const) and isinstance(kv.v, str):
+                                    const_items[kv.v] = self.iv(z, vv)
+                                nxt.append((z, (dict_set(t, to_val(kv), to_val(vv)),
+                                                dict_set(tv, self.iv(z, kv), self.iv(z, vv)), lifted)))
             cur = nxt
-        return [(x, t if isinstance(t, Raise) else Z(t, None, {"fresh_container": True})) for (x, t) in cur]
+        outs = []
+        for (x, acc) in cur:
+            if isinstance(acc, Raise):
+                outs.append((x, acc))
+                continue
+            t, tv, lifted = acc
+            meta = {"fresh_container": True, "items": dict(const_items)}
+            if lifted:
+                self.eng.note("[N-VIEW]")
+                meta["lv"] = tv
+            elif t.eq(tv):
+                meta["plain"] = True
+            outs.append((x, Z(t, None, meta)))
+        return outs
 
     def comprehension(self, eng, e, st, kind):
         """Only the `_from_base` map pattern is handled in the protocol tier:
@@ -482,7 +528,7 @@ class Intrinsics:
         # values that may be (or contain) synced nodes compare through their plain views [N-VIEW]
         eng.note("[N-VIEW]")
         st.event("pyeq", ta, tb)
-        return [(st, Bv(smt.pyeq(self.iv(st, ta), self.iv(st, tb))))]
+        return [(st, Bv(smt.pyeq(self.iv(st, a), self.iv(st, b))))]
 
     def _as_bv(self, st, r):
         if isinstance(r, Bv):
@@ -663,6 +709,9 @@ class Intrinsics:
                     raise Unsupported(f"call of {name} on a node of unknown class without a virtual contract")
                 return [(st, BuiltinV("virtual:" + name, recv=obj))]
             return [(st, BuiltinV("m:" + name, recv=obj))]
+        if isinstance(obj, ResolverV):
+            if name == "get_type":
+                return [(st, BuiltinV("resolver.get_type", recv=obj))]
         if isinstance(obj, BuiltinV) and obj.name == "registry":
             return [(st, BuiltinV("registry." + name))]
         if isinstance(obj, (TupleV,)) and name in ("append", "pop"):
@@ -672,6 +721,32 @@ class Intrinsics:
         if isinstance(obj, BuiltinV):
             return [(st, BuiltinV(obj.name + "." + name, recv=obj.recv))]
         raise Unsupported(f"attribute {name} of {obj!r}")
+
+    def b_resolver_get_type(self, eng, st, fn, args, kwargs):
+        """Contract of AbstractTypeResolver.get_type (proved in C19 under the cache invariant): the tag of the
+        FIRST identifier that accepts the object, else None — independent of the cache.  The identifier
+        lambdas are the real ones and are executed symbolically."""
+        res = fn.recv
+        obj = args[0]
+        outs = []
+        cur = [st]
+        for (tag, lam) in res.tags:
+            nxt = []
+            for x in cur:
+                for (y, v) in eng.call_lambda(x, lam, [obj]):
+                    if isinstance(v, Raise):
+                        outs.append((y, v))
+                        continue
+                    for (z, t) in eng.truthy(y, v):
+                        for (w, side) in eng.fork(z, t, ("resolver", res.name, tag)):
+                            if side:
+                                outs.append((w, Const(tag)))
+                            else:
+                                nxt.append(w)
+            cur = nxt
+        for x in cur:
+            outs.append((x, Const(None)))
+        return outs
 
     def object_attr(self, eng, st, sup, name):
         if name in ("__setattr__", "__delattr__", "__init__", "__init_subclass__", "default"):
@@ -722,7 +797,7 @@ class Intrinsics:
             if name in ("items", "keys", "values"):
                 eng.note("[SPEC-BUILTIN]")
                 f = {"items": dict_items, "keys": dict_keys, "values": dict_values}[name]
-                return [(st, Z(f(recv.term), None, {"of": recv, "view": name}))]
+                return [(st, Z(f(recv.term), None, {"of": recv, "view": name, "plain": recv.meta.get("plain", False)}))]
             if name in ("encode", "decode"):
                 return [(st, Z(F("bytes_" + name, Val, Val)(recv.term), "bytes"))]
         h = getattr(self, "value_method_ext", None)
@@ -736,6 +811,7 @@ class Intrinsics:
     def b_lock___enter__(self, eng, st, fn, args, kwargs):
         eng.note("[E-LOCK]")
         lid = fn.recv.lid
+        st.assume(st.sel("Depth", lid) >= 0)          # a re-entrancy depth is never negative
         st.upd("Depth", lid, st.sel("Depth", lid) + 1)
         st.event("lock-enter", lid, fn.recv.name)
         for h in eng.hooks:
@@ -800,7 +876,16 @@ class Intrinsics:
             return [(st, Bv(eng.exc_isinstance(v, names)))]
         tv = to_val(v)
         eng.note("[E-ABC]")
-        return [(st, Bv(smt.or_([smt.isinstance_(tv, n) for n in names])))]
+        alts = []
+        for n in names:
+            ci = eng.P.classes.get(n)
+            if ci is not None and any(k.name == "SyncedCollection" for k in ci.mro):
+                # Inv.node: the only object references inside values are synced nodes, and only they are
+                # instances of synced classes
+                alts.append(z3.And(smt.is_VRef(tv), smt.inst(smt.ClsOf(Val.addr(tv)), z3.IntVal(smt.tid_of(n)))))
+            else:
+                alts.append(smt.isinstance_(tv, n))
+        return [(st, Bv(smt.or_(alts)))]
 
     def _type_names(self, t):
         if isinstance(t, ClassV):
